@@ -475,8 +475,145 @@ def run_random(ctx, spec):
             ctx.violate("random-program-binding", "binding differs from the reference resolver: %s" % problems[0], replay)
 
 
+# ---------------------------------------------------------------------------------------------------------------
+# module paths with repeated segment names (A, A::A, A::B::A, ...): "innermost scope outwards" must be taken literally
+
+RPATHS = [p for n in (1, 2, 3) for p in ("::".join(x) for x in itertools.product("AB", repeat=n))]
+RSPELLINGS = ["X", "::X", "A", "A::A", "X::m"] + [p + "::X" for p in RPATHS] + ["::" + p + "::X" for p in RPATHS]
+RPOSITIONS = ["field", "parameter", "alias", "base", "underlying", "seq-elem", "return"]
+
+
+def run_repeat(ctx, spec):
+    _, count, idx = spec
+    rng = ctx.rng("rep/%d" % idx)
+    items = []
+    for ci in range(count):
+        placed = [(p, rng.choice(["struct", "struct", "enum", "custom", "alias", "interface"])) for p in RPATHS if rng.random() < 0.4]
+        ref_levels = rng.sample(RPATHS, 3)
+        files = [File(p, [make_x(k, p)]) for p, k in placed]
+        # modules that only exist as referencing scopes are declared too (they hold the referencing definitions)
+        table = Program(files + [File(l, []) for l in ref_levels]).table()
+        valid, invalid = [], []
+        n = 0
+        for level in ref_levels:
+            refdefs = []
+            for position in rng.sample(RPOSITIONS, 3):
+                for spelling in RSPELLINGS:
+                    n += 1
+                    v = verdict(table, position, spelling, level)
+                    if v[0] == "ok":
+                        d, t = ref_def(position, spelling, n)
+                        refdefs.append(d)
+                        valid.append((position, spelling, n, v, level))
+                    elif rng.random() < 0.03:
+                        invalid.append((position, spelling, n, v, level))
+            files.append(File(level, refdefs))
+        if rng.random() < 0.5:
+            files.reverse()
+        prog = Program(files)
+        items.append(("valid", printer.print_program(prog), valid, placed))
+        for position, spelling, n, v, level in invalid[:4]:
+            d, t = ref_def(position, spelling, n)
+            fs = [File(p, [make_x(k, p)]) for p, k in placed] + [File(l, []) for l in ref_levels if l != level] + [File(level, [d])]
+            items.append(("invalid", printer.print_program(Program(fs)), (position, spelling, v, level), placed))
+        ctx.note_case(("repeat", tuple(placed), tuple(ref_levels)))
+    for k in range(0, len(items), 60):
+        chunk = items[k:k + 60]
+        resps = ctx.worker.batch([{"op": "compile", "files": it[1], "want": ["ast", "codes"] if it[0] == "valid" else ["codes"]} for it in chunk])
+        for (what, texts, info, placed), r in zip(chunk, resps):
+            replay = {"kind": "library", "call": "compile_from_strings", "files": texts, "family": "repeated-segments-" + what}
+            if "died" in r or r.get("panic"):
+                p = r.get("panic") or {"message": "worker " + r["died"], "location": "?"}
+                ctx.violate(core.panic_signature(p), "resolution crashed: %s" % p, replay)
+                continue
+            errs = [x for x in r["codes"] if x[1] == "error"]
+            if what == "invalid":
+                position, spelling, v, level = info
+                ctx.stats["repeat_invalid_refs_checked"] += 1
+                if not errs:
+                    ctx.violate("invalid-reference-accepted:%s:%s" % (position, v[0]), "reference '%s' in %s position from module %s designates %s "
+                                "but compiled without error (X placed in %s)" % (spelling, position, level,
+                                                                                "nothing" if v[0] == "E033" else "something of the wrong kind", placed), replay)
+                elif not any(x[0] == v[0] for x in errs):
+                    ctx.violate("invalid-reference-wrong-code:%s:%s" % (position, v[0]), "reference '%s' in %s position from %s: expected %s, got %s"
+                                % (spelling, position, level, v[0], [x[0] for x in errs]), replay)
+                continue
+            ctx.stats["repeat_programs"] += 1
+            if errs:
+                replay["codes"] = errs[:5]
+                ctx.violate("valid-reference-rejected-repeat:" + errs[0][0], "references that all designate a proper entity were rejected: %r "
+                            "(X placed in %s)" % (errs[0], placed), replay)
+                continue
+            for position, spelling, k2, v, level in info:
+                d = find_ref_dump(r["files"], "R%d" % k2)
+                ctx.stats["repeat_bindings_checked"] += 1
+                if d is None:
+                    ctx.violate("ref-definition-missing", "definition R%d not found in the AST" % k2, replay)
+                    break
+                ok, why = bound_matches(d, v, position)
+                if not ok:
+                    ctx.violate("wrong-binding-repeat:%s" % position, "reference '%s' in %s position from module %s (X placed in %s): %s"
+                                % (spelling, position, level, placed, why), replay)
+                    break
+    if items:
+        ctx.sample({"family": "module paths with repeated segments", "files": items[0][1]}, limit=1)
+
+
+# ---------------------------------------------------------------------------------------------------------------
+# names that exist both as a module path and as a definition / member path
+
+def clash_cases():
+    kinds = {"struct": "struct %s { %s: bool }", "enum": "enum %s { %s }", "interface": "interface %s { %s() }",
+             "enumf": "enum %s { V(%s: bool) }"}
+    for p in ("A", "A::B"):
+        for kind, tpl in kinds.items():
+            for other in ("{p}::N", "{p}::N::m", "{p}::N::m::Q", "{p}::N::Q", "{p}::Other::m", "{p}::N::V", "{p}::N::V::m"):
+                q = other.format(p=p)
+                f1 = "module %s\n%s\n" % (p, tpl % ("N", "m"))
+                f2 = "module %s\nstruct Z { x: bool }\n" % q
+                f3 = "module User\nstruct U { z: ::%s::Z }\n" % q
+                for order in itertools.permutations(range(3)):
+                    fs = [f1, f2, f3]
+                    yield (p, kind, q), order, [fs[i] for i in order]
+
+
+def run_clash(ctx, spec):
+    """If such a program is accepted at all, it must be accepted in every file order, and then every definition and member
+    must be retrievable by its scoped name and references must bind identically."""
+    cases = list(clash_cases())
+    resps = ctx.worker.batch([{"op": "compile", "files": c[2], "want": ["ast", "codes"]} for c in cases])
+    by_key = {}
+    for (key, order, texts), r in zip(cases, resps):
+        ctx.note_case(("clash", key, order))
+        ctx.stats["clash_cases"] += 1
+        replay = {"kind": "library", "call": "compile_from_strings", "files": texts, "family": "module-vs-definition-names"}
+        if "died" in r or r.get("panic"):
+            p = r.get("panic") or {"message": "worker " + r["died"], "location": "?"}
+            ctx.violate(core.panic_signature(p), "resolution crashed: %s" % p, replay)
+            continue
+        errs = sorted(set(x[0] for x in r["codes"] if x[1] == "error"))
+        by_key.setdefault(key, []).append((order, bool(errs), texts))
+        if errs:
+            continue
+        ctx.stats["clash_accepted"] += 1
+        for f in r["files"]:
+            for d in f["contents"]:
+                members = d.get("fields", []) + d.get("enumerators", []) + d.get("operations", [])
+                for e in [d] + members + [x for m in members for x in (m.get("fields") or [])]:
+                    ctx.stats["lookups_checked"] += 1
+                    if e.get("lookup") != "ok":
+                        ctx.violate("find-element-fails:" + e["kind"], "%s %s cannot be retrieved by its scoped name in an accepted program: %r"
+                                    % (e["kind"], e["psid"], e.get("lookup")), replay)
+    for key, outs in by_key.items():
+        if len(set(o[1] for o in outs)) != 1:
+            acc = [o for o in outs if not o[1]][0]
+            ctx.violate("acceptance-depends-on-file-order", "module %s next to %s %s::N: accepted in file order %r, rejected in another"
+                        % (key[2], key[1], key[0], acc[0]), {"kind": "library", "call": "compile_from_strings", "files": acc[2],
+                                                             "family": "module-vs-definition-names"})
+
+
 def run_shard(ctx, spec):
-    {"arr": run_arrangements, "together": run_together, "chains": run_chains, "random": run_random}[spec[0]](ctx, spec)
+    {"repeat": run_repeat, "clash": run_clash, "arr": run_arrangements, "together": run_together, "chains": run_chains, "random": run_random}[spec[0]](ctx, spec)
 
 
 def plan(tier, seed):
@@ -487,6 +624,9 @@ def plan(tier, seed):
     specs += [("chains", n // 16, i) for i in range(16)]
     n = 3000 if tier == "quick" else 50000
     specs += [("random", n // 16, i) for i in range(16)]
+    n = 1600 if tier == "quick" else 40000
+    specs += [("repeat", n // 16, i) for i in range(16)]
+    specs += [("clash",)]
     return specs
 
 
@@ -500,10 +640,15 @@ def main(tier, seed):
               "seed-rotated tenth of the rest); per arrangement %d spellings x %d positions are classified by the reference resolver; "
               "the valid ones are compiled together (must be error-free and bound to the designated entity), the invalid ones one "
               "at a time (must give E033 / E017 at the reference). Alias chains of length 1-4, attributes at each link, 7 end "
-              "forms x 7 positions, across files/modules, 15%% with a loop. Random programs: lookup by scoped name. "
+              "forms x 7 positions, across files/modules, 15%% with a loop. Random programs: lookup by scoped name. Repeated-segment "
+              "family: X of random kinds in a random subset of all 14 module paths of depth <= 3 over {A, B} (so that A, A::A, "
+              "A::B::A ... coexist), 3 referencing modules x 3 positions x 33 spellings, valid ones compiled together, a sample of the "
+              "invalid ones singly. Clash family: a definition / member path that is also a module path, in every file order "
+              "(acceptance must not depend on the order; accepted programs must keep every element retrievable). "
               "distinct_nontrivial = distinct arrangements / chain programs / random programs" % (len(SPELLINGS), len(POSITIONS))),
         required={"arrangements": 300, "bindings_checked": 3000, "invalid_refs_checked": 3000, "alias_chains_flattened": 500,
-                  "alias_chain_loops": 50, "lookups_checked": 1000, "random_programs": 100, "together_programs": 200, "bindings_checked_together": 10000},
+                  "alias_chain_loops": 50, "lookups_checked": 1000, "random_programs": 100, "together_programs": 200, "bindings_checked_together": 10000,
+                  "repeat_programs": 1000, "repeat_bindings_checked": 20000, "repeat_invalid_refs_checked": 500, "clash_cases": 300},
         assumptions=["first match wins, then its kind is checked (a wrong-kind inner match is an error, the search does not continue)",
                      "carried alias attributes are compared as a multiset after the use site's own attributes"],
         exhaustive=True,
